@@ -77,7 +77,10 @@ def run(ctx):
     obs = _observe(so, [5, 0.25])
     viols = []
     for o in obs:
-        if o["waited_with"] != [o["decorator_timeout"]]:
+        w = o["waited_with"]
+        ok = len(w) >= 1 and all(isinstance(x, (int, float)) and not isinstance(x, bool)
+                                 and o["decorator_timeout"] - 0.5 <= x <= o["decorator_timeout"] for x in w)
+        if not ok:          # D40 = the decorator's timeout is DROPPED (None); a computed remaining time is fine
             viols.append({"signature": SIG,
                           "what": "@replicated_sync(timeout=%r): Event.wait was called with %r; with no answer the "
                                   "call blocks instead of raising 'Timeout'" % (o["decorator_timeout"], o["waited_with"]),
